@@ -156,6 +156,9 @@ def gen_cases(rng, tier):
     if tier != "quick":
         for T in (4097, 65537, 70000):
             cases.append(_long_run_case(rng, "ABM", T, nomodel=True))
+    # re-entrant callables (run_next_event from inside an event / model.step): one step per tick must survive that
+    for _ in range(30 if tier == "quick" else 1500):
+        cases.append(_C14s._nested_case(rng, "ABM"))
     # user code that raises (also IndexError) in the middle of a run call: a run call that returns normally has stepped every tick
     from props import C14 as _C14
     for _ in range(40 if tier == "quick" else 1500):
